@@ -57,6 +57,8 @@ class Contract:
         self.result_expr = g('result_expr', None)
         self.also_check = g('also_check', False)
         self.native_requires = list(g('native_requires', []))
+        self.native_seeds = list(g('native_seeds', []))
+        self.solver = dict(g('solver', {}))
         self.source_file = None
         self.name = cls.__name__
 
